@@ -571,6 +571,19 @@ func judgeStatic(w *core.W, fx *fixture, c *staticCase, classes func(string)) {
 	f := flamego.NewWithLogger(io.Discard)
 	if c.Spread {
 		sl := []flamego.StaticOptions{opts}
+		if len(c.Path)%3 == 0 {
+			// the caller's buffer served another declaration first (a Static for the directory above, which is never
+			// installed), and was then refilled: every declaration is what its arguments say at that moment
+			sl[0] = flamego.StaticOptions{Directory: fx.root, Prefix: "/earlier", Index: "secret.txt"}
+			_ = flamego.Static(sl...)
+			if opts.FileSystem == nil {
+				sl[0].Directory, sl[0].Prefix, sl[0].Index = opts.Directory, opts.Prefix, opts.Index // the caller fills in what it means to change
+				sl[0].Expires, sl[0].CacheControl, sl[0].SetETag, sl[0].EnableLogging = opts.Expires, opts.CacheControl, opts.SetETag, opts.EnableLogging
+			} else {
+				sl[0] = opts
+			}
+			w.Count("options-slice-used-for-an-earlier-declaration")
+		}
 		h := flamego.Static(sl...)
 		sl[0] = flamego.StaticOptions{Directory: filepath.Join(fx.root, "pubx"), Prefix: "/scribbled", Index: "leak", FileSystem: http.Dir(fx.root)}
 		f.Use(h)
